@@ -775,9 +775,27 @@ def repair_chains_rule(ctx, P, rule):
         ctx.ob(rule, ok, fn.name, 'end of the chain kept in %s' % name, (clears[0] if clears else fn).where() if hasattr((clears[0] if clears else fn), 'where') else fn.where(),
                'item_next cleared and the header rewritten' if ok else
                'the last good chunk kept in %s is never cut off (%d clearing stores, %d rewrites): after a truncation its item_next still names an offset past the end of the file, or a chunk that the repair writes there later' % (name, len(clears), len(writes)))
+        # a copy that is taken straight from the chunk just read inside a loop that also reads an INDEX before it is the
+        # SUMMARY of a pair: the SUMMARY chain is completed while the pairs are walked (the writer links SUMMARY n to n+1
+        # only after it wrote n+1; the statistics reader follows exactly that chain)
+        direct = [t_ for t_ in takes if strip_casts(t_.store_parts()[0]).get('name') == name]
+        lp_ = loops(fn)
+        in_pair_loop = [t_ for t_ in direct if any(t_.block.id in body and sum(1 for r_ in reads if r_.block.id in body) >= 2 for body in lp_.values())]
+        if in_pair_loop and any(strip_casts(h_.store_parts()[1]).get('name') != name for h_ in fn.stores() if h_.store_parts()[1] is not None and strip_casts(h_.store_parts()[0]).get('op') == 'ref' and strip_casts(h_.store_parts()[0]).get('name') in copies and strip_casts(h_.store_parts()[1]).get('op') == 'ref'):
+            t_ = in_pair_loop[0]
+            links = [ev for ev in fn.stores() if show(strip_casts(ev.store_parts()[0])) == '%s.hdr.item_next' % name and ev.store_parts()[1] is not None and
+                     'chunk_cur.offset' in show(strip_casts(ev.store_parts()[1]))]
+            ok_l = False
+            for l_ in links:
+                for w_ in writes:
+                    if find_path(fn, l_, lambda e2, facts, w_=w_: 'target' if e2 is w_ else ('stop' if e2 is t_ else None), refine=False) is not None and \
+                            find_path(fn, w_, lambda e2, facts: 'target' if e2 is t_ else None, refine=False) is not None:
+                        ok_l = True
+            ctx.ob(rule, ok_l, fn.name, 'SUMMARY chain completed while the pairs are walked (%s)' % name, t_.where(),
+                   'the previous SUMMARY is linked to the one just read and rewritten before the copy moves on' if ok_l else
+                   'the copy of the previous SUMMARY is replaced without looking at its item_next: when the writer stopped after it wrote a SUMMARY and before it linked the previous one to it, the INDEX chain is complete and the SUMMARY chain ends one pair early - the open succeeds and a statistics request over the whole signal fails (the reader follows the SUMMARY chain)')
         # the cut depends on nothing but "the chain ended here" and "there is a last good chunk": a further condition (the
         # descend offset taken from the last index entry, which is 0 for a block that was left out) leaves the link in place
-        from ..graph import control_deps_transitive, loops
         loop_heads = set(loops(fn).keys())
         cursors = set(strip_casts(ev.store_parts()[0]).get('name') for ev in fn.stores() if ev.store_parts()[1] is not None and
                       strip_casts(ev.store_parts()[0]).get('op') == 'ref' and show(strip_casts(ev.store_parts()[1])).endswith('.hdr.item_next'))
@@ -785,7 +803,9 @@ def repair_chains_rule(ctx, P, rule):
         for ev in fn.events():
             if ev.k == 'decl' and (ev.t or '') in ('u1', 'bool', '_Bool'):
                 flags.add(ev.name)
-        for w_ in writes:
+        nxt_stores = [ev for ev in fn.stores() if show(strip_casts(ev.store_parts()[0])) == '%s.hdr.item_next' % name]
+        cut_writes = [w_ for w_ in writes if any(find_path(fn, cl, lambda e2, facts, w_=w_, cl=cl: 'target' if e2 is w_ else ('stop' if (e2 in nxt_stores and e2 is not cl) else None), refine=False) is not None for cl in clears)]
+        for w_ in cut_writes:
             extra = []
             for bid, lab in control_deps_transitive(fn, w_.block.id):
                 b_ = fn.blocks[bid]
